@@ -22,7 +22,7 @@ PLAN = {
     "thorough": {"shards": 16, "shard_timeout": 3600, "case_timeout": 30, "grammars": 4000, "max_case_timeouts": 80},
 }
 THRESHOLDS = {
-    "quick": {"mapped:ge": 200, "mapped:sge": 200, "mapped:dsge": 200, "mapped:stack": 30, "programs_checked": 2000, "kind:tuple": 50, "kind:union": 30, "kind:bool": 50, "kind:list": 100, "kind:abstract": 500, "repr:tree": 200, "repr:ge": 100, "repr:sge": 100, "repr:dsge": 100, "repr:stack": 20, "op:mutate": 100, "op:crossover": 100, "fitness_args_checked": 100, "redeclared_grammars": 40},
+    "quick": {"cases_declared_with_string_annotations": 60, "mapped:ge": 200, "mapped:sge": 200, "mapped:dsge": 200, "mapped:stack": 30, "programs_checked": 2000, "kind:tuple": 50, "kind:union": 30, "kind:bool": 50, "kind:list": 100, "kind:abstract": 500, "repr:tree": 200, "repr:ge": 100, "repr:sge": 100, "repr:dsge": 100, "repr:stack": 20, "op:mutate": 100, "op:crossover": 100, "fitness_args_checked": 100, "redeclared_grammars": 40},
     "thorough": {"programs_checked": 40000, "kind:tuple": 1000, "kind:union": 600, "kind:bool": 1000, "repr:stack": 300, "fitness_args_checked": 2000},
 }
 
